@@ -131,3 +131,42 @@ func runLive(c *core.Ctx, p Plan, workers int) (*outcome, error) {
 	}
 	return out, nil
 }
+
+// runProps: the property layer (K1-K5, state and step monitors) as an invariant of the code-shaped
+// spec in the REPAIRED alternatives under every fault of the plan. Nothing is replayed (the tree is
+// as found); a counterexample means the proposed repairs do not establish the properties: reported
+// as a NOTE with the history.
+func runProps(c *core.Ctx, p Plan, workers int) (*outcome, error) {
+	out := &outcome{live: &liveOutcome{info: J{}}, runs: []*Run{}, lines: 1}
+	lo := out.live
+	mod, files, cfg := p.mcFiles("props")
+	res, err := tlc.Run(tlc.Opts{Module: mod, CfgText: cfg, Files: files, Workers: workers, Timeout: 30 * time.Minute, HeapGB: 6})
+	if err != nil {
+		return nil, err
+	}
+	if res.Errored != "" {
+		return nil, fmt.Errorf("TLC evaluation error on plan %s (props): %s", p.Name, evalError(res.Out))
+	}
+	lo.states = res.Distinct
+	lo.info["alternatives"] = p.M
+	lo.info["states"] = res.Distinct
+	lo.info["generated"] = res.States
+	lo.info["wall_s"] = res.Wall.Seconds()
+	switch {
+	case res.Violation:
+		txt := "(no history printed)"
+		if raw := res.Tagged["CEX"]; len(raw) > 0 {
+			if b, err := decodeBeh(raw[0], p.Kinds); err == nil {
+				txt = fmt.Sprintf("%s fails %v", behText(p, b.H, -1), b.Pv)
+			}
+		}
+		lo.info["result"] = "counterexample: " + txt
+		lo.report = append(lo.report, fmt.Sprintf("NOTE chainobs: the property layer does NOT hold for the repaired alternatives %+v of the code-shaped spec (plan %s): %s", p.M, p.Name, txt))
+	case res.Completed:
+		lo.info["result"] = "K1-K5 hold in every reachable state"
+		c.Logf("chainobs plan %s: the property layer holds for the alternatives %+v in all %d states (%d generated, %.1fs)", p.Name, p.M, res.Distinct, res.States, res.Wall.Seconds())
+	default:
+		return nil, fmt.Errorf("TLC did not complete on plan %s (props)\n%s", p.Name, res.Tail(25))
+	}
+	return out, nil
+}
